@@ -362,7 +362,11 @@ func (x *Exec) native(name string, fn *ssa.Function, args []Value) (Value, bool)
 		s := args[0].(SliceV)
 		vals := make([]string, s.len)
 		for i := range vals {
-			vals[i] = mustStr(load(s.a.e[s.off+i]))
+			c, ok := load(s.a.e[s.off+i]).(*Str).concrete()
+			if !ok {
+				return nil, false // symbolic names: execute the real sort
+			}
+			vals[i] = c
 		}
 		sort.Strings(vals)
 		for i := range vals {
